@@ -81,6 +81,10 @@ func replay(path string) {
 			runConc(t0, fixedGroups(gs), "replay")
 		case "prov.lock":
 			lockCheck()
+		case "prov.lsn":
+			if tags, args, outs, ok := runLsnChild(1, 0, c[2]); ok {
+				w.Case("prov.lsn", tags, args, outs)
+			}
 		}
 	}
 }
